@@ -22,6 +22,8 @@ pub fn grammar_text() -> String {
     g.push_str("rp = { x* }\n");
     g.push_str("rp1 = { (x ~ \",\")+ }\n");
     g.push_str("lf_range = { 'b'..'f' }\n");
+    g.push_str("lf_greek = { 'α'..'ω' }\n");
+    g.push_str("lf_cjk = { '一'..'龥' }\n");
     g.push_str("lf_any = { ANY }\n");
     g.push_str("lf_ins = { ^\"abé\" }\n");
     g.push_str("lf_nl = { NEWLINE }\n");
@@ -125,7 +127,7 @@ pub fn probes(g: &Grammar) -> String {
             into = if name == "rp" { "q.clone().into_iter_matched().map(|e| e.span()).collect::<Vec<_>>()" } else { "{ let (h, t) = q.clone().into_matched(); let mut v = vec![h.into_matched().0.span()]; v.extend(t.into_iter_matched().map(|e| e.into_matched().0.span())); v }" },
         ));
     }
-    for name in ["lf_range", "lf_any", "lf_ins", "lf_nl", "lf_letter", "lf_han", "lf_upper", "lf_digit", "lf_hex", "lf_alnum", "lf_stack"] {
+    for name in ["lf_range", "lf_greek", "lf_cjk", "lf_any", "lf_ins", "lf_nl", "lf_letter", "lf_han", "lf_upper", "lf_digit", "lf_hex", "lf_alnum", "lf_stack"] {
         let r = idx(name);
         s.push_str(&format!(
             "                (\"leaf\", {r}) => {{\n                    let (_, t) = rules::{name}::try_parse_partial(host).ok()?;\n                    Some(format!(\"{{:?}}\", t.ref_inner()))\n                }}\n",
